@@ -56,7 +56,7 @@ impl Prop for C06 {
         "C06"
     }
     fn cases(&self, ctx: &Ctx) -> u64 {
-        ctx.tier.pick(2500, 60_000)
+        ctx.tier.pick(20_000, 250_000)
     }
     fn rule(&self) -> &'static str {
         "well-formed programs (grammar programs in decorated layouts, data-test seeds re-tokenised with the reference scanner) x 2-4 admissible re-layouts each (all on one line, one token per line, random gaps: token order kept, gaps touching a comment kept, gaps with >= 2 line breaks keep their count, verbatim regions and asm bodies untouched) x sampled configurations; oracle: F(x) == F(relayout(x)) byte for byte, failing re-layouts are minimised to the responsible gaps. Non-trivial: the re-layout changed >= 3 gaps; distinct by hash of (program, re-layout, configuration)."
